@@ -50,3 +50,9 @@ pub fn string_parse_u64_or0(x: &String) -> (r: u64)
 pub fn u64_to_string(n: u64) -> (r: String)
     ensures parse_u64_or0(r@) == n,
 { n.to_string() }
+
+// Option::map_or (not in vstd): default when None, f(x) when Some(x)
+pub assume_specification<T, U, F: FnOnce(T) -> U + std::marker::Destruct>[Option::<T>::map_or](o: Option<T>, default: U, f: F) -> (r: U)
+    where U: std::marker::Destruct
+    requires o is Some ==> call_requires(f, (o->0,)),
+    ensures o is None ==> r == default, o is Some ==> call_ensures(f, (o->0,), r);
